@@ -127,6 +127,12 @@ func schemaOps(seed int64, n int, outDir string, streams string, replay string) 
 				groupRandom(s, g)
 			case "scalar":
 				groupScalar(s, g)
+			case "bounds":
+				groupBounds(s, g)
+			case "containers":
+				groupContainers(s, g)
+			case "objects":
+				groupObjects(s, g)
 			}
 		}
 	}
